@@ -93,15 +93,17 @@ for _nm, _bound, _ex in (
     ("fidelity.value.n2_all_presentations", "all 360 x 360 ordered pairs of (state, ordered generating set) of the 60 two-qubit stabilizer states; destabilizer "
      "completion variant cycles over 4 choices with the pair index (thorough: 3 passes with shifted variants)", True),
     ("fidelity.value.n3_sampled", "seeded random ordered pairs of the 1080 three-qubit states x random ordered generating set (of 168) x random destabilizers", False),
-    ("fidelity.value.n4to6_sampled", "seeded random pairs of random 4-6 qubit Clifford tableaux (random circuits + random change of presentation); "
+    ("fidelity.value.n4_sampled", "seeded random pairs of random 4-qubit Clifford tableaux (random circuits + random change of presentation); "
      "half of the pairs are related by <= 3 gates so that non-zero overlaps occur", False),
+    ("fidelity.value.n5_to_8_sampled", "seeded random pairs of random 5-8 qubit Clifford tableaux, same construction (quick: 150 pairs; thorough: "
+     "the same 150 + 450 more); own random stream, so the inputs depend on the seed only", False),
 ):
     S.item(_nm, site=f"{MET}:fidelity", bound=_bound, exhaustive=_ex,
            clause="the stabilizer fidelity equals |<a|b>|^2 for all pairs, in any generating sets and destabilizers")(value_case)
 
 
 @S.item("fidelity.symmetric", site=f"{MET}:fidelity",
-        bound="all 60 x 60 ordered pairs of two-qubit states in random presentations, all 6 x 6 one-qubit pairs, sampled n=3..5",
+        bound="all 60 x 60 ordered pairs of two-qubit states in random presentations, all 6 x 6 one-qubit pairs, sampled n=3..4",
         clause="the fidelity is symmetric")
 def symmetric_case(inp):
     ta, pa, tb, pb = inp
@@ -136,7 +138,7 @@ def one_iff_case(inp):
 
 
 @S.item("inner_product.magnitude", site=f"{MET}:inner_product",
-        bound="all 60 x 60 two-qubit state pairs in random presentations, all one-qubit tableau pairs, sampled n=3..5",
+        bound="all 60 x 60 two-qubit state pairs in random presentations, all one-qubit tableau pairs, sampled n=3..4",
         clause="inner_product is the overlap magnitude the fidelity is built from: |ip|^2 = |<a|b>|^2")
 def ip_case(inp):
     ta, pa, tb, pb = inp
@@ -212,7 +214,7 @@ def canon_diff_case(inp):
 
 @S.item("Stabilizer.__eq__.iff_same_state", site="graphiq.backends.stabilizer.state:Stabilizer.__eq__",
         bound="n<=2: all pairs of presentations of one state, all sign-only variant pairs, all 60 x 60 state pairs in random "
-              "presentations and destabilizers; n=3..5 sampled",
+              "presentations and destabilizers; n=3..4 sampled",
         clause="state equality depends only on the state and distinguishes sign-only differences")
 def stab_eq_case(inp):
     ta, pa, tb, pb = inp
@@ -348,12 +350,14 @@ def run(tier, seed):
     S.map("fidelity.value.n3_sampled", [rand_pres3() + rand_pres3() for _ in range(20000 if thorough else 4000)])
     big = []
     for _ in range(3000 if thorough else 400):
-        n = int(rng.integers(4, 7))
-        if rng.random() < 0.5:
-            big.append(_near_pair(n, rng))
-        else:
-            big.append(_rand_tab(n, rng) + _rand_tab(n, rng))
-    S.map("fidelity.value.n4to6_sampled", big)
+        big.append(_near_pair(4, rng) if rng.random() < 0.5 else _rand_tab(4, rng) + _rand_tab(4, rng))
+    S.map("fidelity.value.n4_sampled", big)
+    rng_l = np.random.default_rng([seed, 5, 99])  # own stream: the quick list is a prefix of the thorough list
+    large = []
+    for _ in range(600 if thorough else 150):
+        n = int(rng_l.integers(5, 9))
+        large.append(_near_pair(n, rng_l) if rng_l.random() < 0.5 else _rand_tab(n, rng_l) + _rand_tab(n, rng_l))
+    S.map("fidelity.value.n5_to_8_sampled", large)
 
     # ---- pairs of states in random presentations (n<=2 exhaustive over state pairs)
     def rp(n, i):
@@ -362,7 +366,7 @@ def run(tier, seed):
 
     state_pairs = [rp(1, i) + rp(1, j) for i in range(6) for j in range(6)] + [rp(2, i) + rp(2, j) for i in range(60) for j in range(60)]
     more = [rand_pres3() + rand_pres3() for _ in range(1500 if thorough else 300)] + [
-        _near_pair(int(rng.integers(3, 6)), rng) for _ in range(1500 if thorough else 300)]
+        _near_pair(int(rng.integers(3, 5)), rng) for _ in range(1500 if thorough else 300)]
     S.map("fidelity.symmetric", state_pairs + more)
     S.map("inner_product.magnitude", state_pairs + [a + b for a in t1 for b in t1] + more)
 
